@@ -233,6 +233,21 @@ def _valid_words(g):
         for pt in (Q, BLS.neg(g, Q)):
             out.append(B.compress_g1(pt) if g == "G1" else B.compress_g2(pt))
     out.append(B.compress_g1(None) if g == "G1" else B.compress_g2(None))     # the infinity word is a mutation base too
+    # coordinates whose leading byte equals the leading byte of p (0x1a): just below the modulus, where a
+    # byte-wise range pre-check is easy to get wrong by one
+    lo = 0x1A << 376
+    k = 0
+    found = 0
+    while found < 2:
+        k += 1
+        if g == "G1":
+            Q = BLS.lift_x("G1", lo + k)
+        else:
+            Q = BLS.lift_x("G2", (lo + k, 3 + k)) if found == 0 else BLS.lift_x("G2", (5 + k, lo + k))
+        if Q is not None:
+            found += 1
+            for pt in (Q, BLS.neg(g, Q)):
+                out.append(B.compress_g1(pt) if g == "G1" else B.compress_g2(pt))
     return out
 
 
